@@ -58,7 +58,7 @@ class TagsPart:
     def strategy(self, tier):
         @st.composite
         def case(draw):
-            c = P.gen_case(draw, nsamples=(1, 2), depth=(1, 8), paired_share=25, skip_share=10, clip_share=0, eqx_share=0)
+            c = P.gen_case(draw, nsamples=(1, 2), depth=(1, 8), paired_share=25, skip_share=10, clip_share=0, eqx_share=0, unsorted_gt_share=30)
             c["max_coverage"] = draw(st.sampled_from([2, 3, 5, 15]))
             return c
         return case()
@@ -123,12 +123,14 @@ def gen_model(draw, nsamples=(1, 2)):
 
 
 def write_unphased(model, path, seq=None):
+    unsorted = {(vi, s) for vi, s in model.get("unsorted", [])}
     with open(path, "w") as f:
         f.write("##fileformat=VCFv4.2\n##contig=<ID=chr1,length=100000>\n")
         f.write('##FORMAT=<ID=GT,Number=1,Type=String,Description="gt">\n')
         f.write("#CHROM\tPOS\tID\tREF\tALT\tQUAL\tFILTER\tINFO\tFORMAT\t" + "\t".join(model["samples"]) + "\n")
         for vi, p in enumerate(model["positions"]):
-            gts = ["/".join(map(str, sorted(model["calls"][s][vi]["alleles"]))) for s in model["samples"]]
+            # some unphased genotypes are spelled with descending alleles ('1/0'), which is legal VCF
+            gts = ["/".join(map(str, sorted(model["calls"][s][vi]["alleles"], reverse=(vi, s) in unsorted))) for s in model["samples"]]
             f.write("chr1\t%d\t.\tA\tC\t.\tPASS\t.\tGT\t%s\n" % (p + 1, "\t".join(gts)))
     return path
 
@@ -233,6 +235,8 @@ class VcfInputPart:
                         c["set"] = None
             m["enc"] = draw(st.sampled_from(["PS", "HP"]))
             m["tag"] = draw(st.sampled_from(["PS", "HP"]))
+            if draw(st.integers(0, 2)) == 0:
+                m["unsorted"] = [[vi, s] for s in m["samples"] for vi in range(len(m["positions"])) if draw(st.integers(0, 2)) == 0]
             return m
         return case()
 
@@ -381,7 +385,7 @@ class HistoryPart:
             @rule(data=st.data())
             def init(self, data):
                 c = data.draw(st.composite(lambda draw: P.gen_case(draw, nsamples=(1, 2), ncontigs=(1, 1), length=(400, 800), depth=(2, 7),
-                                                                    paired_share=20, clip_share=0, eqx_share=0))())
+                                                                    paired_share=20, clip_share=0, eqx_share=0, unsorted_gt_share=30))())
                 self.step(["init", c])
 
             @precondition(lambda self: self.state.case is not None)
